@@ -1,12 +1,17 @@
 """C15 — gzip plugin: what the client decodes is exactly what the backend sent."""
 from .. import common as C
 from .. import rwgen
+from . import c01
 from . import c14
 
 ID = "C15"
-MODULES = ["Helios.Props.C15"]
+MODULES = ["Helios.Props.CodeRW", "Helios.Props.C15"]
 THEOREMS = ["Helios.Http.payload_preserved", "Helios.Http.status_preserved", "Helios.Http.compress_only_if",
-            "Helios.Http.identity_otherwise", "Helios.Http.not_accepting_passthrough"]
+            "Helios.Http.identity_otherwise", "Helios.Http.not_accepting_passthrough",
+            # Tie C: the buffering half of the plugin's response writer (WriteHeader, commitHeader, Write, Flush),
+            # translated from the source on every run, is the model's Gz.step — same state, same byte stream handed on
+            "Helios.CodeTie.gzWrite_sim", "Helios.CodeTie.gzWriteHeader_sim", "Helios.CodeTie.gzCommit_sim",
+            "Helios.CodeTie.gzFlush_sim", "Helios.CodeTie.flat_chunks", "Helios.CodeTie.translation_clean_rw"]
 TYPES = ["text/|application/json", "text/html|text/css|application/json", "application/", "text/plain"]
 CAP = 10 * 1024 * 1024
 
@@ -126,6 +131,53 @@ def oracle_pair(ep, outs):
     return fails
 
 
+def front_episode(rng):
+    """the plugin where cmd/helios puts it — buildHandler over the real balancer, with the circuit breaker / limiter /
+    passive checks switched on or off — against the same exchange made directly: statuses of every class (a 5xx is
+    what the breaker counts), text bodies above min_size, clients that do and do not accept gzip"""
+    feats = "g" + "".join(f for f in "crp" if rng.random() < 0.6)
+    ep = ["px new round_robin 00 - %s" % feats]
+    for _ in range(rng.randint(3, 6)):
+        status = rng.choice([200, 200, 201, 404, 410, 500, 502, 503, 503, 504])
+        ct = rng.choice(["text/plain", "text/html; charset=utf-8", "application/json", "image/png"])
+        total = rng.choice([1, 40, 600, 5000, 70000])
+        ops = ["sh:Content-Type:%s" % c01.enc(ct)]
+        if rng.random() < 0.5:
+            ops.append("sh:Content-Length:%d" % total)
+        ops.append("wh:%d" % status)
+        seed = rng.randint(0, 250)
+        for part in c01.partition(rng, total, 3):
+            ops.append("w:%d:%d" % (part, seed))
+            seed = (seed + part) % 251
+        h = [("Accept-Encoding", rng.choice(["gzip", "gzip", "gzip, deflate", "identity"]))] if rng.random() < 0.85 else []
+        for mode in ("direct", "via"):
+            ep.append("px x %s GET /p %s 0 cl %s" % (mode, c01.hdr_tok(h), ";".join(ops)))
+    ep.append("px close")
+    return ep
+
+
+def front_oracle(ep, outs):
+    """what the client decodes through Helios is what the backend sent, with the backend's status"""
+    lines = C.op_lines(ep)
+    fails = []
+    i = 1
+    while i + 1 < len(lines):
+        if not (lines[i].startswith("px x direct") and lines[i + 1].startswith("px x via")):
+            i += 1
+            continue
+        od, ov = outs[i].split("||")[0], outs[i + 1].split("||")[0]
+        fd = dict(t.split("=", 1) for t in od.split()[1:] if "=" in t)
+        fv = dict(t.split("=", 1) for t in ov.split()[1:] if "=" in t)
+        if "status" in fd and "status" in fv:
+            if fd["status"] != fv["status"]:
+                fails.append("status changed behind the gzip plugin: backend %s, client %s (%s)" % (fd["status"], fv["status"], lines[i + 1]))
+            if fd.get("body") != fv.get("body") or fv.get("short") != "0":
+                fails.append("payload not preserved behind the gzip plugin: backend sent len:hash %s, client decoded %s short=%s (%s)" % (
+                    fd.get("body"), fv.get("body"), fv.get("short"), lines[i + 1]))
+        i += 2
+    return fails
+
+
 def check(ctx):
     ctx.assumptions += [
         "compress/gzip round-trips (gunzip(gzip(b)) = b): the harness client really decodes what it receives",
@@ -153,6 +205,15 @@ def check(ctx):
         sess.append(["# session-batch", "rws " + chain] + ["rw @ " + r for r in rests] + ["rws -"] + ["rw %s %s" % (chain, r) for r in rests])
     d.check(sess, oracle=lambda e, o: rwgen.session_oracle(e, o) or [], label="gzip-session")
     ctx.cov["session_episodes"] = len(sess)
+    # the plugin in the front end cmd/helios builds, over the real balancer with its other features on
+    fbin = c01.build(ctx)
+    df = C.Differential(ctx, fbin, timeout=600, project=c01.project)
+    fronts = [front_episode(ctx.rng) for _ in range(60 if ctx.thorough() else 12)]
+    df.check(fronts, oracle=front_oracle, label="gzip-front")
+    ctx.cov["front_end_episodes"] = len(fronts)
+    if getattr(df, "last", None):
+        ctx.cov["front_end_exchanges_compressed"] = sum(1 for outs in df.last[0] for o in outs if "Content-Encoding=gzip" in o)
+        ctx.cov["front_end_exchanges_5xx_compressed"] = sum(1 for outs in df.last[0] for o in outs if "Content-Encoding=gzip" in o and " status=5" in o)
     comp = ident = 0
     nontriv = set()
     if bad == 0:
